@@ -364,8 +364,15 @@ def check_synth(case, ctx):
                 continue
             ok, idx_f = call(ctx, "raises", dict(desc, dtype="float64"), counts.astype(float), m)
             if ok:
-                ctx.check(is_index(idx_i) and idx_i == idx_f, "dtype-changes-index", desc,
-                          f"int64 counts give {idx_i!r}, the same values as float64 give {idx_f!r}")
+                # an integer array must be handled (valid index, no exception); that it gives the very index of the
+                # same values stored as floats is not claimed anywhere (scipy's uniform filter keeps the integer
+                # dtype and truncates; measured: 1 sample apart on 1 of 1 200 curves) - the difference is reported
+                n_all = counts.size
+                ctx.check(is_index(idx_i) and 0 <= idx_i < n_all, "index-out-of-range", desc,
+                          f"index {idx_i!r} for an int64 force array of {n_all} samples")
+                if is_index(idx_i) and is_index(idx_f):
+                    ctx.extra["max_index_change_dtype"] = max(ctx.extra.get("max_index_change_dtype", 0),
+                                                               abs(int(idx_i) - int(idx_f)))
         ctx.event("integer_counts")
 
 
